@@ -763,6 +763,8 @@ fn cow_mutator(c: &CowBytes<'_>, s: &[u8], which: &'static str, k: usize) -> (bo
 
 fn check_cow_string(s: &[u8], acc: &mut Acc) {
     let lit: &'static [u8] = Box::leak(s.to_vec().into_boxed_slice());
+    // [mutator][index] -> did it panic, per variant: the variants must be indistinguishable in this respect too
+    let mut panics: Vec<Vec<Vec<bool>>> = vec![vec![Vec::new(); s.len() + 2]; 4];
     for (vi, vname) in VARIANTS.iter().enumerate() {
         let rj = || json!({"kind": "cow", "hex": hex(s), "variant": vi});
         acc.nodes += 1;
@@ -781,17 +783,33 @@ fn check_cow_string(s: &[u8], acc: &mut Acc) {
         }
         let c = cow_of(s, lit, vi);
         if !s.is_empty() {
-            acc.c(if cow_read_consumes(&c) { "cow.read.consumes" } else { "cow.read.does-not-consume" });
+            if cow_read_consumes(&c) {
+                acc.c("cow.read.consumes");
+            } else {
+                acc.c("cow.read.does-not-consume");
+                // a byte sequence that is read from gives its bytes out once (like &[u8] or Bytes::reader())
+                acc.v(format!("cow.read.not-consumed.{vname}"), format!("{vname}: io::Read::read on {} returned a byte but the value still holds all {} bytes: reading never reaches the end", hex(s), s.len()), s.len(), || json!({"kind": "cow", "hex": hex(s), "variant": vi}));
+            }
         }
-        for which in ["split_to", "split_off", "truncate", "advance"] {
+        for (wi, which) in ["split_to", "split_off", "truncate", "advance"].into_iter().enumerate() {
             for k in 0..=s.len() + 1 {
                 acc.nodes += 1;
                 let (panicked, bad) = cow_mutator(&c, s, which, k);
+                panics[wi][k].push(panicked);
                 let cls = if k <= s.len() { "in-range" } else { "past-end" };
                 acc.c(&format!("cow.{which}.{cls}.{}", if panicked { "panics" } else { "returns" }));
                 if let Some((key, d)) = bad {
                     acc.v(format!("cow.{key}.{vname}"), format!("{vname}: {d}"), s.len(), || json!({"kind": "cow", "hex": hex(s), "variant": vi}));
                 }
+            }
+        }
+    }
+    for (wi, which) in ["split_to", "split_off", "truncate", "advance"].into_iter().enumerate() {
+        for k in 0..=s.len() + 1 {
+            let p = &panics[wi][k];
+            if p.iter().any(|x| *x) && p.iter().any(|x| !*x) {
+                let who: Vec<String> = VARIANTS.iter().zip(p.iter()).map(|(v, x)| format!("{v}: {}", if *x { "panics" } else { "returns" })).collect();
+                acc.v(format!("cow.variants-differ.{which}.{}", if k <= s.len() { "in-range" } else { "past-end" }), format!("{which}({k}) on {}: borrowed and owned variants behave differently ({})", hex(s), who.join(", ")), s.len(), || json!({"kind": "cow", "hex": hex(s), "variant": 0}));
             }
         }
     }
